@@ -23,7 +23,8 @@ RULE = ("for each scenario (version x flavour x {ideal, 1-byte} transport x "
         " Family dead_peer: the peer died after sending a fatal alert (or data); this endpoint's next send (application data, KeyUpdate, post-handshake CertificateRequest, ClientHello) fails with EPIPE/ECONNRESET while the alert is readable / lost / replaced by data: the call raises, the alert (when readable and the record is handshake-type) surfaces as TLSRemoteAlert, the connection is closed and not resumable."
         ' Under ignoreAbruptClose only a missing close_notify (EOF) may be ignored, a reset must raise.'
         " Family gone_reply: the peer wrote (heartbeat request,) data and close_notify and is gone; the replies this endpoint owes (heartbeat response, close_notify) fail with EPIPE / reset / timeout while it reads: data is delivered, the next read returns empty, the session stays resumable, writes raise the closed-connection error.  Alert placements also with the alert split into two one-byte records (sender's recordSize 1, TLS <= 1.2)."
-        " Family shut: wclose = a multi-record write parked on a stalled transport while a read of the same connection meets the peer's close_notify (nothing may go out unprotected); cfault = socket.close() raising during the shutdown after a fatal alert / garbage record; eclose = TLS 1.3 client closing with closeSocket off before it has read the server's tickets.")
+        " Family shut: wclose = a multi-record write parked on a stalled transport while a read of the same connection meets the peer's close_notify (nothing may go out unprotected); cfault = socket.close() raising during the shutdown after a fatal alert / garbage record; eclose = TLS 1.3 client closing with closeSocket off before it has read the server's tickets."
+        " shut/calert: close() with closeSocket off meets the peer's unread fatal alert (must surface, session not resumable).")
 LEVEL_TEXT = ("Fault enumeration: exhaustive over the socket-call index space "
               "of the listed scenarios on the ideal transport (and in the "
               "thorough tier also on the 1-byte transport), one fault per "
@@ -41,7 +42,7 @@ PROBES = ["fault_eof", "fault_reset", "fault_epipe", "in_handshake",
           "alert_fatal", "ignore_abrupt", "no_close_socket", "byte_policy",
           "remote_alert_surfaced", "abrupt_close_seen", "orderly_close_seen",
           "dead_peer", "dead_write", "dead_keyupdate", "dead_pha",
-          "shut_wclose", "shut_cfault", "shut_eclose",
+          "shut_wclose", "shut_cfault", "shut_eclose", "shut_calert",
           "alert_fragmented", "gone_reply", "gone_heartbeat_sent", "gone_close",
           "gone_data_close",
           "dead_hello", "alert_readable", "alert_lost", "alert_data"]
@@ -289,6 +290,10 @@ def plan(tier, base_seed):
                     jobs.append({"seed": si + 1, "fam": "shut", "si": si,
                                  "policy": "ideal", "fi": fi,
                                  "shut": ["cfault", actor, trig]})
+                for desc in (40, 20, 80):
+                    jobs.append({"seed": si + 1, "fam": "shut", "si": si,
+                                 "policy": "ideal", "fi": fi,
+                                 "shut": ["calert", actor, desc]})
     for si in [i for i in range(nsc) if SCENARIOS[i]["version"] == [3, 4]
                and "ticketKeys" in SCENARIOS[i].get("sset_extra", {})]:
         for fi in range(4):
@@ -624,6 +629,31 @@ def run_shut(job, sc, flags):
                   "session left resumable after a fatal %s because "
                   "socket.close() raised during the shutdown (%r)" %
                   (arg, orr.exc))
+    elif kind == "calert":
+        # the peer's fatal alert is still unread when this endpoint closes:
+        # with closeSocket off, close() waits for an answer and finds it
+        P.start(("alert",), lambda: P.conn._sendMsg(Alert().create(arg, 2)))
+        sim.run(until=lambda: P.op is None)
+        P.sock.abort()
+        oc2 = A.start(("close",), lambda: A.conn.closeAsync())
+        st = sim.run()
+        fired = not flags[0]
+        if not flags[0]:
+            if oc2.kind != "exc" or not isinstance(oc2.exc, TLSRemoteAlert) \
+                    or oc2.exc.description != arg:
+                v("alert_not_surfaced", "calert|%s" % (
+                    type(oc2.exc).__name__ if oc2.kind == "exc"
+                    else oc2.kind),
+                  "close() met the peer's fatal alert %d while waiting for "
+                  "close_notify but ended with %s %r" % (
+                      arg, oc2.kind, oc2.exc))
+            closed_after, resumable_after = oc2.post
+            if closed_after is False:
+                v("not_closed", "calert", "connection open after close()")
+            if resumable_after:
+                v("resumable_after_failure", "calert",
+                  "session left resumable although the peer had sent fatal "
+                  "alert %d" % arg)
     else:
         # eclose: no read before the close; the server answers close_notify
         oc2 = A.start(("close",), lambda: A.conn.closeAsync())
